@@ -370,6 +370,19 @@ Definition y0_policy_of (eps : list entry_point) (id : ep_name) : y0_policy :=
   | None => Y0Unknown
   end.
 
+(** ---- third pass: two more facts read from the source (GenScanFacts.v: [gen_view_policy], [gen_row_update]) ----
+    [view_policy]: what [Simulation._compute_args] leaves behind in the model object it reads through:
+      [ViewLeaves]   the model keeps the stored plain parameters of the last segment (the tree before 4167248);
+      [ViewRestores] the parameter values found before the view are put back
+                     ([in_force = self._parameters_in_force()] ... [finally: self.model.update_parameters(in_force)]).
+    [row_update]: what the two update calls of a scan task do to the model object's [_cache]:
+      [RowInvalidatesPerItem] [update_variables] / [update_parameters] are plain loops over the items that call the
+                     single-item mutators, which carry [@_invalidate_cache]: an EMPTY dict leaves the cache alone,
+                     any item drops it (the tree);
+      [RowInvalidatesAlways] the batch mutators carry the decorator themselves. *)
+Inductive view_policy := ViewRestores | ViewLeaves | ViewUnknown.
+Inductive row_update := RowInvalidatesPerItem | RowInvalidatesAlways | RowUnknown.
+
 (** ---- time axes of the protocol worker (lengths only need the number of steps) ---- *)
 Section Axes.
   Variable T : Type.          (* a time value *)
